@@ -383,6 +383,23 @@ func c06special(c *core.Ctx) {
 				}
 				return ""
 			}},
+		// the same file included twice: identical entries bring identical resources; entries whose own environment or
+		// project directory makes the resources differ are a redefinition like any other
+		{name: "same-file-twice-identical", files: map[string]string{
+			"compose.yaml": "include:\n  - path: ./inc/app.yaml\n    env_file: ./one.env\n  - path: ./inc/app.yaml\n    env_file: ./one.env\nservices:\n" + svc("m", "m"),
+			"inc/app.yaml": "services:\n" + svc("x", "app:${TAG}"), "one.env": "TAG=1\n"},
+			check: func(im map[string]string) string {
+				if im["x"] != "app:1" {
+					return "x image " + im["x"]
+				}
+				return ""
+			}},
+		{name: "conflict-same-file-two-env-files", wantErr: true, files: map[string]string{
+			"compose.yaml": "include:\n  - path: ./inc/app.yaml\n    env_file: ./one.env\n  - path: ./inc/app.yaml\n    env_file: ./two.env\nservices:\n" + svc("m", "m"),
+			"inc/app.yaml": "services:\n" + svc("x", "app:${TAG}"), "one.env": "TAG=1\n", "two.env": "TAG=2\n"}},
+		{name: "conflict-same-file-two-project-directories", wantErr: true, files: map[string]string{
+			"compose.yaml": "include:\n  - path: ./inc/app.yaml\n    project_directory: ./pd1\n  - path: ./inc/app.yaml\n    project_directory: ./pd2\nservices:\n" + svc("m", "m"),
+			"inc/app.yaml": "services:\n  x:\n    image: x\n    build: {context: ./ctx}\n", "pd1/.keep": "", "pd2/.keep": ""}},
 		{name: "conflict-service", wantErr: true, files: map[string]string{
 			"compose.yaml": "include:\n  - ./inc.yaml\nservices:\n" + svc("x", "main"), "inc.yaml": "services:\n" + svc("x", "included")}},
 		{name: "conflict-network", wantErr: true, files: map[string]string{
